@@ -8,7 +8,7 @@
     GetCertificate call: the effects of the handshake goroutine, the effect lists of the
     goroutines it spawned (ARI refresh, background renewal), its result and the next world.
     [h_name h] is the normalised server name (None: idna error), [h_hit h] the cache lookup. *)
-From CM Require Import Lib.Str Lib.QualSteps Gen.Consts Handshake.Model Handshake.Proofs.
+From CM Require Import Lib.Str Lib.QualSteps Gen.Consts Handshake.Model Handshake.Proofs Handshake.Check Handshake.Monitor Handshake.Template.
 Open Scope N_scope.
 
 (** "the policy answered yes about y, and nothing was asked again before position i" *)
@@ -170,6 +170,60 @@ Theorem C02_source_shape_is_the_modelled_one :
 Proof. exact source_shape. Qed.
 Print Assumptions C02_source_shape_is_the_modelled_one.
 
+(** ** soundness of the whole monitor: the specification component of [Check.replay] (policy
+    clause [spec_hs], no self-wait, an error or a complete certificate), evaluated on what the harness
+    would record of a history that behaves exactly like the model, is true — for every world whose
+    bundles are stored under their first subject and every history (handshakes interleaved with policy
+    changes, storage and cache interference) *)
+Theorem C02_monitor_sound_on_every_history : forall is_space ops w, Forall op_wf ops -> store_wf w ->
+  snd (replay is_space w (self_wops is_space w ops)) = true.
+Proof. exact monitor_sound. Qed.
+Print Assumptions C02_monitor_sound_on_every_history.
+
+(** ... and with its first component: on a history that behaves exactly like the model the check's
+    verdict is "model and observation agree, specification holds" (both components of [replay]) *)
+Theorem C02_check_accepts_every_model_history : forall is_space ops w, Forall op_wf ops -> store_wf w ->
+  replay is_space w (self_wops is_space w ops) = (true, true).
+Proof. exact model_agrees_with_itself. Qed.
+Print Assumptions C02_check_accepts_every_model_history.
+
+(** ** the policy a Config enforces (Handshake/Template.v: cfg.OnDemand is a pointer, Configs made
+    from the template alias Default.OnDemand, Manage* records names in the OnDemandConfig pointed to) *)
+
+(** with a DecisionFunc the implicit allowlist is irrelevant: the policy, and every answer of the gate,
+    is the same whatever names have been recorded *)
+Theorem C02_decision_func_makes_the_allowlist_irrelevant : forall is_space w f l1 l2 n req,
+  policy_of_od (OdCfg (Some f) l1) = policy_of_od (OdCfg (Some f) l2) /\
+  gate is_space (set_od w (Some (policy_of_od (OdCfg (Some f) l1)))) n req =
+  gate is_space (set_od w (Some (policy_of_od (OdCfg (Some f) l2)))) n req.
+Proof. intros. split; reflexivity. Qed.
+Print Assumptions C02_decision_func_makes_the_allowlist_irrelevant.
+
+(** a Config made from the template points to Default.OnDemand itself; Configs that point to the same
+    OnDemandConfig enforce the same policy; and the names managed through ONE of them are on the list
+    every OTHER one enforces, after any further sequence of New / Manage / Default changes *)
+Theorem C02_template_configs_share_the_allowlist :
+  (forall s, nth (length (t_cfgs s)) (t_cfgs (tstep s (TNew None))) None = t_default s) /\
+  (forall s i j, nth i (t_cfgs s) None = nth j (t_cfgs s) None -> policy_of s i = policy_of s j) /\
+  (forall s i j r names ops,
+     nth_error (t_cfgs s) i = Some (Some r) -> nth_error (t_cfgs s) j = Some (Some r) ->
+     (r < length (t_heap s))%nat ->
+     exists od, nth_error (t_heap (trun (tstep s (TManage i names)) ops)) r = Some od /\
+       policy_of (trun (tstep s (TManage i names)) ops) j = Some (policy_of_od od) /\
+       forall n, In n names -> In n (od_allow od)).
+Proof.
+  split; [exact template_configs_alias_default|split; [exact aliased_configs_same_policy|]].
+  intros s i j r names ops Hi Hj Hr. exact (managed_names_reach_every_aliased_config s i j r names ops Hi Hj Hr).
+Qed.
+Print Assumptions C02_template_configs_share_the_allowlist.
+
+(** the statements of config.go / handshake.go that policy model rests on are the ones in the source
+    today (translator item c02EmitC02PolicyShape; a change breaks this proof) *)
+Theorem C02_policy_source_shape_is_the_modelled_one :
+  hs_template_ondemand_aliased = true /\ hs_manage_records_allowlist = true /\ hs_decision_before_allowlist = true.
+Proof. repeat split. Qed.
+Print Assumptions C02_policy_source_shape_is_the_modelled_one.
+
 (** non-vacuity: concrete worlds in which the hypotheses hold and the gated effects occur *)
 Definition ex_name : name := [102; 111; 111; 46; 101; 120].   (* "foo.ex" *)
 Definition ex_sp := tbl_space [].
@@ -272,3 +326,12 @@ Proof.
   destruct (str_eqb wc k) eqn:E; [|discriminate]. intros H; inversion H; subst.
   apply str_eqb_eq in E. exact E.
 Qed.
+
+(** the hypotheses of [C02_monitor_sound_on_every_history] and of the template theorem are satisfiable *)
+Example C02_ex_monitor_sound_history :
+  let c := Cert 1 [ex_name] true true true false false None in
+  let w := World (Some (PDecision (fun k _ => Nat.eqb k 0))) 0 [] [(ex_name, c)] 0 2 in
+  let ops := [OHandshake (Hello (Some ex_name) None None MgrNone true false); OStoreDel ex_name;
+              OSetPolicy (Some (PAllow [ex_name])); OHandshake (Hello (Some ex_name) None None MgrNone true false)] in
+  replay ex_sp w (self_wops ex_sp w ops) = (true, true).
+Proof. vm_compute. reflexivity. Qed.
